@@ -94,6 +94,7 @@ def zernike_nm_seq(nms, r, t, norm=True):
     #
     # benchmarked at 12.26 ns/element (256x256), 4.6GHz CPU = 56 clocks per element
     # ~36% faster than previous impl (12ms => 8.84 ms)
+    nms = _as_sequence(nms)  # any iterable of (n, m), also a generator
     x = 2 * r ** 2 - 1
     ms = [e[1] for e in nms]
     am = truenp.abs(ms)
